@@ -357,6 +357,10 @@ pub fn rare_contexts() -> Vec<(char, String, char)> {
         ('S', "%local a {}~;", 'V'),
         ('S', "%l: %put {};", 'T'),
         ('S', "%l:~{}", 'S'),
+        ('S', "%if &a %then %do;~{} %end;~%else %put n;", 'S'),
+        ('S', "%if &a %then %do;~{} %end;~%else %do; x=2; %end;", 'S'),
+        ('S', "%if &a %then {} %else %put n;", 'S'),
+        ('S', "%macro q; %if &a %then %do;~{} %end; %else %put n; %mend;", 'S'),
     ]
     .iter()
     .map(|(a, b, c)| (*a, (*b).to_string(), *c))
@@ -406,6 +410,9 @@ const RARE_LEAVES: &[(char, &[&str])] = &[
         &[
             "%macro m~(~)~;~%mend~;", "%macro m( /*c*/ ) / des='x';%mend;", "%macro m~(~)~/~store~;~%mend m~;", "%m~(~)~;", "x=%m( );",
             "%put a/b a&b a&&b a& & 50% a%b;", "%let a=a/b&;", "x=5 % 2;", "%sysmstoreclear; %list; %run;",
+            // macro statements that begin in the middle of an open-code statement
+            "set y %if &b %then (obs=1); ;", "x=1 %if &c %then +2; ;", "a %do; b %end; c;", "a = 1 %if &c %then * 42; %else * 2; ;",
+            "set y %if &b %then (obs=1); ; * c;", "x = %do; 1 %end; ;",
         ],
     ),
     (
@@ -429,6 +436,8 @@ const RARE_LEAVES: &[(char, &[&str])] = &[
         &[
             "%str(,)", "%str(%))", "a=b", "(a=b,c)", "%nrstr(&x)", "(a;b)", "'a;b'", "a/*c*/b", "%str(;)", "a%b", "a&", "&", "%", "a(b)c", "((a))",
             "%m(a,b)", "%m(k=(1,2))", "(a,(b,c))", "a\nb", "%str(%%)",
+            // a macro comment in the middle of a value, with delimiters in its body
+            "x %*(; y", "x %*,; y", "x %*); y", "x %* %let; y", "%*(;x", "1 %* a=b, c; ", "%str(a&)", "%str(a&&)b", "%str(a&(b))",
         ],
     ),
     (
@@ -790,6 +799,12 @@ fn value_shapes() -> Vec<(Vec<Piece>, bool)> {
         (vec![other("%str"), hdelim("(", T::LPAREN), masked(","), hdelim(")", T::RPAREN)], false),
         (vec![other("%str"), hdelim("(", T::LPAREN), masked("%)"), hdelim(")", T::RPAREN)], false),
         (vec![other("%nrstr"), hdelim("(", T::LPAREN), masked("a,b;"), hdelim(")", T::RPAREN)], false),
+        // a lone '&' / '%' run that is not first in its text section, directly before the ')' or a
+        // '(' of %str; a macro comment with delimiters in its body inside a value
+        (vec![other("%str"), hdelim("(", T::LPAREN), masked("a&"), hdelim(")", T::RPAREN)], false),
+        (vec![other("%str"), hdelim("(", T::LPAREN), masked("a&&,x&(y,z)5% "), hdelim(")", T::RPAREN)], false),
+        (vec![other("%nrstr"), hdelim("(", T::LPAREN), masked("a&,&b%"), other(" "), hdelim(")", T::RPAREN)], false),
+        (vec![other("x "), masked("%*(,=;"), other("y")], false),
         (vec![other("&v")], false),
         (vec![other("&v.x")], false),
         (
@@ -869,7 +884,11 @@ fn build_call(head: &str, model: ArgModel, args: &[(bool, usize)], filler: &str,
         if *named {
             // the name of a named argument may itself be a text expression; rotate through the
             // shapes so that every (position, value shape) meets every name shape in some item
-            let names = ["k{}", "&n", "&n.", "k{}&n", "k{}&n.", "&&n&i", "&n.k{}", "%n&n", "%a%b", "%n&n.k{}", "k{}%n"];
+            let names = [
+                "k{}", "&n", "&n.", "k{}&n", "k{}&n.", "&&n&i", "&n.k{}", "%n&n", "%a%b", "%n&n.k{}", "k{}%n",
+                // a name produced by a call with its own parentheses, '=' glued to its ')'
+                "%upcase(k{})", "%n(k{})", "%upcase(%n(a,b))", "k{}%n(1)", "%qscan(%n(a b),1)", "%str(k{})",
+            ];
             let name = names[(i + *s + args.len()) % names.len()].replace("{}", &i.to_string());
             v.push(other(&name));
             v.push(gap(filler));
@@ -1151,6 +1170,10 @@ fn c13_items(tier: Tier) -> Vec<Vec<Piece>> {
             if args.len() < h.min_args {
                 continue;
             }
+            // inside %str / %nrstr a '%*' is text, not a macro comment
+            if h.hidden && args.iter().any(|(_, s)| value_shapes()[*s].0.iter().any(|p| p.text.contains("%*"))) {
+                continue;
+            }
             for f in fillers {
                 let mut pcs = vec![other("%let x=")];
                 pcs.extend(build_call(h.head, h.model, &args, f, h.hidden));
@@ -1212,6 +1235,9 @@ fn c13_items(tier: Tier) -> Vec<Vec<Piece>> {
             }
             // %str / %nrstr: hidden parentheses, everything inside is text
             for head in ["%str", "%nrstr"] {
+                if shape.iter().any(|pc| pc.text.contains("%*")) {
+                    continue; // inside %str / %nrstr a '%*' is text, not a macro comment
+                }
                 let inner: Vec<Piece> = shape
                     .iter()
                     .map(|pc| {
@@ -1726,6 +1752,20 @@ fn c14_items(tier: Tier) -> Vec<Deletion> {
             }
         }
     }
+    // the same deletions directly after text the lexer rolls back over (a bare call followed by a
+    // comment / an exotic blank), with non-ASCII characters and a line break in that text
+    let base_n = v.len();
+    for pre in ["%m /*\u{e9}*/ ", "\u{e9}=1; %m\u{a0}", "%m /*\u{20ac}\n*/\n"] {
+        for k in 0..base_n {
+            if v[k].name == "rparen-open-at-eof-deep" {
+                continue;
+            }
+            let mut d = v[k].clone();
+            d.before = format!("{pre}{}", d.before);
+            d.at += pre.len();
+            v.push(d);
+        }
+    }
     v
 }
 
@@ -1748,6 +1788,24 @@ pub fn c14_check(d: &Deletion, v: &View) -> Vec<String> {
     let tok_here = v.toks.iter().any(|t| t.ty == d.token && t.start == at && t.end == at);
     if !tok_here {
         out.push(format!("deletion.no-recovery-token:{}:{:?}", d.name, d.token));
+    }
+    // "at the position where the delimiter should have been" holds in every coordinate the result
+    // carries: character offset, line and column of the error, character start of the token
+    let cat = v.src.get(..d.at).map_or(0, |p| p.chars().count()) as u32;
+    let line = v.src.get(..d.at).map_or(0, |p| p.matches('\n').count()) as u32 + 1;
+    let col = v.src.get(..d.at).map_or(0, |p| p.rsplit('\n').next().unwrap_or("").chars().count()) as u32;
+    if let Some(e) = v.errors.iter().find(|e| e.error_kind() == d.error && e.at_byte_offset() == at) {
+        if e.at_char_offset() != cat {
+            out.push(format!("deletion.error-char-offset:{}:{:?}", d.name, d.error));
+        }
+        if e.on_line() != line || e.at_column() != col {
+            out.push(format!("deletion.error-line-column:{}:{:?}", d.name, d.error));
+        }
+    }
+    if let Some(t) = v.toks.iter().find(|t| t.ty == d.token && t.start == at && t.end == at) {
+        if t.cstart != cat {
+            out.push(format!("deletion.recovery-token-char-start:{}:{:?}", d.name, d.token));
+        }
     }
     for e in v.errors {
         let k = e.error_kind();
